@@ -468,7 +468,7 @@ fn c18_explore<D: Dec>(run: &mut Run) {
         let ops: Vec<Op> = f.iter().map(|i| alphabet[*i as usize]).collect();
         c18_eval::<D>(run, &ops, start);
     }
-    run.part(&format!("{}_state_exploration", D::NAME), json!({"alphabet": ops_text(&alphabet), "states_found": out.states, "state_cap": cap, "closed": out.closed, "max_depth": out.max_depth, "histories_replayed": out.histories_run, "ops_replayed": out.steps, "failing(sampled)": out.failures.len()}));
+    run.part(&format!("{}_state_exploration", D::NAME), json!({"alphabet": ops_text(&alphabet), "states_found": out.states, "state_cap": cap, "closed": out.closed, "detail": crate::explore::outcome_json(&out), "max_depth": out.max_depth, "histories_replayed": out.histories_run, "ops_replayed": out.steps, "failing(sampled)": out.failures.len()}));
 }
 
 /// Typematic repeat at the frame level through Keyboard: the same accepted frame k times
